@@ -1,14 +1,15 @@
 package main
 
 import (
+	"bufio"
 	"bytes"
-	"testing/iotest"
-	"io"
 	"encoding/hex"
 	"fmt"
+	"io"
 	"strconv"
 	"strings"
 	"sync"
+	"testing/iotest"
 
 	"github.com/tormoder/fit/dyncrc16"
 )
@@ -117,6 +118,43 @@ func init() {
 			}
 			if err != nil || n != int64(len(data)) || hc.Sum16() != dyncrc16.Checksum(data) {
 				return fmt.Sprintf("copy-feed-broken reader=%d n=%d err=%v sum=%04x", k, n, err, hc.Sum16())
+			}
+		}
+		// ... and through the other optional interfaces the standard library looks for on a writer:
+		// io.WriteString (whole, and cut in two at every position a multi-byte character could
+		// straddle), a bufio.Writer in front, and WriteByte if the hash has it
+		{
+			want := dyncrc16.Checksum(data)
+			str := string(data)
+			hs := dyncrc16.New()
+			if n, err := io.WriteString(hs, str); err != nil || n != len(data) || hs.Sum16() != want {
+				return fmt.Sprintf("string-feed-broken n=%d err=%v sum=%04x", n, err, hs.Sum16())
+			}
+			for _, cut := range []int{1, len(data) / 2, len(data) - 1} {
+				if cut <= 0 || cut >= len(data) {
+					continue
+				}
+				hs.Reset()
+				io.WriteString(hs, str[:cut])
+				io.WriteString(hs, str[cut:])
+				if hs.Sum16() != want {
+					return fmt.Sprintf("string-feed-broken cut=%d sum=%04x", cut, hs.Sum16())
+				}
+			}
+			hs.Reset()
+			bw := bufio.NewWriterSize(hs, 16)
+			bw.WriteString(str)
+			bw.Flush()
+			if hs.Sum16() != want {
+				return fmt.Sprintf("bufio-feed-broken sum=%04x", hs.Sum16())
+			}
+			if wb, ok := dyncrc16.New().(io.ByteWriter); ok {
+				for _, c := range data {
+					wb.WriteByte(c)
+				}
+				if wb.(interface{ Sum16() uint16 }).Sum16() != want {
+					return "bytewriter-feed-broken"
+				}
 			}
 		}
 		h.Reset()
